@@ -272,6 +272,10 @@ class MarginalRateTaxScale(RateTaxScaleLike):
             previous_threshold = self.thresholds[0]
             previous_rate = self.rates[0]
 
+            # Nothing is due below the first threshold.
+            if previous_threshold > 0:
+                average_tax_scale.add_bracket(previous_threshold, 0)
+
             for threshold, rate in itertools.islice(
                 zip(self.thresholds, self.rates),
                 1,
